@@ -42,6 +42,8 @@ RULE = (
     "the layer produced HTTP events or closed the connection (or raised); distinct = (protocol, role, stream kind, frame "
     "kind, prefix kind, outcome class) tuples."
 )
+RULE += " Late additions: prefix ctrl_stopped_late (STOP_SENDING on the victim's critical streams handled by the transport, the StopSendingReceived events reach the HTTP layer only after the hostile bytes); family 'pseudo' (absent / empty / unusual :method :scheme :authority :path :protocol combinations, :status spellings)."
+
 ASSUMPTIONS = [
     "events are synthesised directly (a peer can place any bytes on any stream); only event sequences a real transport "
     "could deliver are generated: peer-initiated streams within the advertised stream/flow-control limits, locally "
